@@ -392,6 +392,7 @@ const (
 	OkBoolTrue               // the (last) bool result is true
 	OkNonNil                 // the first result is non-nil
 	OkPassed                 // the call was simply executed
+	OkNil                    // the first result (a failure value such as *LinkError) is nil
 )
 
 // OkEdges returns the set of edges on which the call at site s is known to
@@ -498,7 +499,7 @@ func (f *Func) OkEdges(s Site, mode OkMode) (edges flow.EdgeSet, direct bool) {
 				}
 			}
 		}
-	case OkNonNil:
+	case OkNonNil, OkNil:
 		obj = pick(lhs[0])
 	}
 	if obj == nil {
@@ -535,7 +536,7 @@ func (f *Func) OkEdges(s Site, mode OkMode) (edges flow.EdgeSet, direct bool) {
 			}
 			if be, ok := atom.(*ast.BinaryExpr); ok && (be.Op == token.EQL || be.Op == token.NEQ) && mode != OkBoolTrue {
 				if (isObj(be.X) && IsNilIdent(info, be.Y)) || (isObj(be.Y) && IsNilIdent(info, be.X)) {
-					wantNil := mode == OkErrNil
+					wantNil := mode == OkErrNil || mode == OkNil
 					for _, e := range u.Out {
 						eqTrue := (be.Op == token.EQL && e.Kind == flow.ETrue) || (be.Op == token.NEQ && e.Kind == flow.EFalse)
 						if eqTrue == wantNil {
@@ -759,4 +760,25 @@ func (f *Func) RequirePass(through []Site, mode OkMode, targets []Site) []string
 		}
 	}
 	return f.MustPass(rest, es)
+}
+
+// StrictSuccessReturnsOrNilPtr lists the returns that report "no failure":
+// for functions with an error result those whose error is the nil constant,
+// otherwise (a single pointer result used as failure value, e.g. *LinkError)
+// those returning the nil constant.
+func (f *Func) StrictSuccessReturnsOrNilPtr() []Site {
+	if f.errResultIndex() >= 0 {
+		return f.StrictSuccessReturns()
+	}
+	var out []Site
+	for _, r := range f.Returns() {
+		rs, ok := r.Node.(*ast.ReturnStmt)
+		if !ok || len(rs.Results) != 1 {
+			continue
+		}
+		if IsNilIdent(f.Info(), rs.Results[0]) {
+			out = append(out, r)
+		}
+	}
+	return out
 }
